@@ -642,6 +642,12 @@ func FFilterMM(ka string, fa Frag, kb string, fb Frag) Frag {
 	return Frag{"f": "filter", "op": "mm", "ka": ka, "fa": fa, "kb": kb, "fb": fb, "c": Null()}
 }
 
+// FFilterMR is `@.key <cmp> $.rk<rf>` (sw: `$.rk<rf> <cmp> @.key`): a multi-valued operand resolved against the ROOT; rf is a
+// wildcard, index-union or slice fragment, or a descent fragment for `$..rk`; cmp is "eq", "ne" or "lt".
+func FFilterMR(key, cmp string, sw bool, rk string, rf Frag) Frag {
+	return Frag{"f": "filter", "op": "mr", "key": key, "cmp": cmp, "sw": sw, "rk": rk, "rf": rf, "c": Null()}
+}
+
 // FFilterRoot is `@.key == $.rk`: the right operand comes from the root of the evaluation.
 func FFilterRoot(key, rk string) Frag {
 	return Frag{"f": "filter", "op": "eqr", "key": key, "rk": rk, "c": Null()}
@@ -718,6 +724,31 @@ func equationOf(f Frag) *jp.Equation {
 		ka, _ := f["ka"].(string)
 		kb, _ := f["kb"].(string)
 		return jp.Eq(jp.Get(sub(ka, f["fa"])), jp.Get(sub(kb, f["fb"])))
+	case "mr":
+		rk, _ := f["rk"].(string)
+		rf, _ := f["rf"].(map[string]any)
+		var rx jp.Expr
+		switch rf["f"] {
+		case "desc":
+			rx = jp.R().D().C(rk)
+		case "wild":
+			rx = jp.R().C(rk).W()
+		case "union":
+			rx = Expr([]Frag{FRoot(), FChild(rk), rf})
+		default:
+			rx = append(jp.R().C(rk), SliceOf(rf))
+		}
+		l, r := jp.Get(jp.A().C(key)), jp.Get(rx)
+		if sw, _ := f["sw"].(bool); sw {
+			l, r = r, l
+		}
+		switch f["cmp"] {
+		case "ne":
+			return jp.Neq(l, r)
+		case "lt":
+			return jp.Lt(l, r)
+		}
+		return jp.Eq(l, r)
 	case "eqr":
 		rk, _ := f["rk"].(string)
 		return jp.Eq(jp.Get(jp.A().C(key)), jp.Get(jp.R().C(rk)))
